@@ -1,8 +1,52 @@
 (** CmdC03.v — command table of the model runner for property C03
     (commands 0300 .. 0399 of [run_cmd]; local number = c mod 100). *)
-From JSL Require Import Base.
+From JSL Require Import Base Instance Dstate Feasible CpSat CpSatSpec.
+
+Definition sigma_of_list (l : list Z) : nat -> Z := fun i => nthZ l i.
+
+(** 1: [[I1; ...; Ik]] -> the CpModelProto held by a solver object that ran
+    [_initialize_model] on I1 .. Ik in this order (or the exception code of the
+    last one). *)
+Definition cmd_encode (v : val) : val :=
+  let Is := asLof dec_instance (vnth v 0) in
+  let step (acc : cpstate * option cp_exn) (I : instance) :=
+    match initialize I (fst acc) with
+    | inl st => (st, None)
+    | inr e => (fst acc, Some e)
+    end in
+  let r := fold_left step Is (fresh_state, None) in
+  match snd r with
+  | Some e => VL [VI (cp_exn_code e)]
+  | None => VL [VI 0; enc_model (st_model (fst r))]
+  end.
+
+(** 2 (repaired key) / 5 (start-only key): [I; status; values] ->
+    [result of solve; satb values (cp_encode I); value of the objective] *)
+Definition cmd_solve (kk : sortkey) (v : val) : val :=
+  let I := dec_instance (vnth v 0) in
+  let st := status_of_code (asZ (vnth v 1)) in
+  let sigma := sigma_of_list (asLof asZ (vnth v 2)) in
+  VL [enc_result (snd (solve_gen kk I fresh_state st sigma));
+      vbool (satb sigma (cp_encode I));
+      VI (objective sigma (cp_encode I))].
+
+(** 3: [I; S] -> [feasible clauses ++ [complete]; makespan I S; lower_bound I;
+    total_duration I; nonflex] *)
+Definition cmd_judge (v : val) : val :=
+  let I := dec_instance (vnth v 0) in
+  let S := dec_sched (vnth v 1) in
+  VL [VL (map vbool (feasible_clauses I S ++ [completeb I S]));
+      VI (makespan I S); VI (lower_bound I); VI (total_duration I); vbool (nonflexb I)].
+
+(** 4: [I] -> brute-force optimum over dispatch histories *)
+Definition cmd_opt_bf (v : val) : val := vopt VI (opt_bf (dec_instance (vnth v 0))).
 
 Definition run_c03 (c : Z) (v : val) : val :=
   match c with
+  | 1 => cmd_encode v
+  | 2 => cmd_solve KeyStartEnd v
+  | 3 => cmd_judge v
+  | 4 => cmd_opt_bf v
+  | 5 => cmd_solve KeyStart v
   | _ => VL []
   end.
